@@ -150,6 +150,45 @@ theorem datagram_acts_only_on_authentic (A : DecFn) (C : Crypto) (L : Loc) (k : 
                   exact ⟨rec, List.mem_cons_of_mem _ hm, hh⟩
                 · exact ⟨rc, List.mem_cons_self, (hconn hc1).1, payload, (hconn hc1).2⟩
 
+/-- **per record**: the datagram loop treats a decoded record `rc` in one of three ways — it skips it (`dropClear`), it
+stops (`tryDecrypt` fails), or it calls `onRecord` with the state *at that record*.  Once keys exist, that one call
+hands bytes up only if `rc` itself is an ApplicationData record that authenticates, and changes the connection state
+only if `rc` itself is an Alert or Handshake record that authenticates.  (So in a datagram
+`[authenticated duplicate Finished, clear-text close_notify]` the state change, if any, is on account of a record
+that opens — the clear-text alert is skipped by `dropClear`.  `acted_only_if_authentic` below is the datagram-level
+corollary, which only names *some* record of the datagram.) -/
+theorem record_acts_only_if_authentic (A : DecFn) (C : Crypto) (L : Loc) (e : Ep) (k : Keys) (rc : Rec) (payload : Bytes)
+    (hk : e.ctx.keys = some k) (hdrop : ¬ dropClear e rc = true)
+    (hdecr : tryDecrypt A (some (readKeys e.isClient k)) rc = some payload) :
+    (∀ p, Out.deliver p ∈ (onRecord C L e rc.ctype (rc.epoch != 0) payload).out →
+        rc.ctype = dtlsCtApplicationData ∧ Authentic A e.isClient k rc p) ∧
+    ((onRecord C L e rc.ctype (rc.epoch != 0) payload).ep.conn ≠ e.conn →
+        (rc.ctype = dtlsCtAlert ∨ rc.ctype = dtlsCtHandshake) ∧ Authentic A e.isClient k rc payload) := by
+  have hauth : rc.epoch ≠ 0 → Authentic A e.isClient k rc payload := by
+    intro he
+    refine ⟨he, ?_⟩
+    simpa [tryDecrypt, he] using hdecr
+  constructor
+  · intro p hp
+    obtain ⟨hct, hpp⟩ := onRecord_deliver C L e _ _ _ p hp
+    subst hpp
+    refine ⟨hct, hauth ?_⟩
+    intro he
+    apply hdrop
+    simp [dropClear, he, hct]
+  · intro hc
+    have hct := onRecord_conn C L e _ _ _ hc
+    refine ⟨hct, hauth ?_⟩
+    intro he
+    rcases hct with hct | hct
+    · apply hdrop
+      simp [dropClear, he, hct, hk]
+    · have hq := onRecord_unauth_hs C L e payload (by simp [hk])
+      apply hc
+      have : (rc.epoch != 0) = false := by simp [he]
+      rw [hct, this]
+      exact hq.1
+
 /-- **acted_only_if_authentic** (full).  Once keys are negotiated, for every datagram (any bytes,
 so any content type, epoch, bit-flip, truncation, wrong key; the source address is not even an
 input of the DTLS layer): bytes are handed up only out of an ApplicationData record of that datagram
